@@ -26,7 +26,7 @@ from harness import cachework as cw
 from harness import data, tlc
 from harness.yawenv import scratch
 
-BIN = '{"N", "A", "A2", "B", "C", "A3"}'
+BIN = '{"N", "A", "A2", "B", "C", "A3", "D"}'
 
 
 def consts(dev="{}", maxb=4):
@@ -161,16 +161,22 @@ def run(ctx) -> None:
         hist.append([("use", a, False), ("pbuild", b, rng.random() < 0.3), ("use", b, False)])
     # histories of measurements whose configurations share the binning (same trees) but differ in scales or only in
     # the parameters of a custom cosmology: nothing kept in memory from the earlier measurement may leak into the later
-    for a, b in (("A", "A3"), ("A3", "A")):
+    for a, b in (("A", "A3"), ("A3", "A"), ("A", "D"), ("D", "A"), ("B", "D")):
         for f in (False, True):
             hist.append([("build", a, f), ("use", b, False)])
         hist.append([("use", a, False), ("use", b, False), ("use", a, False)])
+    # two handles of one cache directory: H1 stays open while the directory is used through fresh handles in between
+    # ("huse" = measure through H1); what H1 remembers must not override what the directory holds
+    for _ in range(10 if quick else 60):
+        a, b = rng.sample(names, 2)
+        hist.append([("huse", a, False), (rng.choice(["use", "build"]), b, rng.random() < 0.3), ("huse", a, False)])
+        hist.append([("huse", a, False), ("use", b, False), ("huse", b, False), ("use", a, False)])
     vnames = ["A"] + list(cw.VARIANTS)
     vh = [[("use", a, False), ("use", b, False)] for a, b in itertools.permutations(vnames, 2)]
     for _ in range(6 if quick else 40):
         vh.append([("use", rng.choice(vnames + names), False) for _ in range(rng.choice([3, 4]))])
     hist += vh
-    keep = 45 + len(vh) + 6
+    keep = 45 + len(vh) + 15 + (20 if quick else 120)
     if quick and len(hist) > 115 + keep:
         head = hist[-keep:]
         hist = rng.sample(hist[:-keep], 115) + head
@@ -207,6 +213,7 @@ def run(ctx) -> None:
         for hi, h in enumerate(hist):
             work = data.copy_cache(src, base / "work")
             cat = yaw.Catalog(work, max_workers=1)
+            h1 = yaw.Catalog(work, max_workers=1)      # the long-lived second handle
             model_marker = ["absent"] * cw.NPATCH
             nontrivial = len({x for _, x, _ in h}) > 1
             ctx.evaluated(1, tuple(h) if nontrivial else None)
@@ -217,7 +224,7 @@ def run(ctx) -> None:
                     cat = yaw.Catalog(work, max_workers=1)  # reopen
                 before = [(work / f"patch_{p}" / "trees.pkl").stat().st_mtime_ns if (work / f"patch_{p}" / "trees.pkl").exists() else None
                           for p in range(cw.NPATCH)]
-                reuse = (not force or op == "use") and model_marker[0] == b
+                reuse = (not force or op in ("use", "huse")) and model_marker[0] == b
                 try:
                     if op == "build":
                         cw.build(cat, b, force)
@@ -228,12 +235,14 @@ def run(ctx) -> None:
                     elif op == "pbuild":
                         parallel_build(cat, b, force, aux)
                         got = None
+                    elif op == "huse":
+                        got = cw.measure(work, cfgname, aux, handle=h1)
                     else:
                         got = cw.measure(work, cfgname, aux)
                 except Exception as exc:  # noqa: BLE001
                     ctx.violation(f"C07|{op}|history_raises_{type(exc).__name__}", dict(history=h, step=si, error=repr(exc)[:300]))
                     break
-                if op == "use" and ref[cfgname] is not None and got != ref[cfgname]:
+                if op in ("use", "huse") and ref[cfgname] is not None and got != ref[cfgname]:
                     prev = [x for x in h[:si]]
                     kind = "same_edges_other_closed_side" if any({pb, b} == {"A", "A2"} for _, pb, _ in prev) else "other"
                     if any({cw.base(pb), b} == {"A", "A3"} for _, pb, _ in prev):
@@ -244,6 +253,8 @@ def run(ctx) -> None:
                         kind = "interrupted_build"
                     if any(o == "pbuild" for o, _, _ in prev):
                         kind = "build_in_worker_processes"
+                    if op == "huse" or any(o == "huse" for o, _, _ in prev):
+                        kind = "second_open_handle_of_the_directory"
                     ctx.violation(f"C07|measure|after_{kind}|result_differs_from_fresh_cache", dict(history=h, step=si, binning=cfgname))
                     break
                 # projection of the real cache vs the model state
